@@ -528,9 +528,31 @@ def naming_rows(ctx):
     return rows
 
 
-def model_instance(cls, attrs):
+def post_root_validators(cls):
+    """Names of the root validators of a pydantic model class that run after field parsing (`@root_validator` without pre=True),
+    base classes first -- read from the decorators in the source."""
+    out = []
+    for c in reversed([c for c in cls.mro if isinstance(c, ClassV)]):
+        for name, v in c.ns.items():
+            f = v
+            while isinstance(f, WrapV):
+                f = f.func
+            node = getattr(f, "node", None)
+            if not isinstance(node, ast.FunctionDef):
+                continue
+            for d in node.decorator_list:
+                src = ast.unparse(d)
+                if src.split("(")[0].split(".")[-1] == "root_validator":
+                    pre = isinstance(d, ast.Call) and any(k.arg == "pre" and isinstance(k.value, ast.Constant) and k.value.value is True for k in d.keywords)
+                    if not pre and name not in out:
+                        out.append(name)
+    return out
+
+
+def model_instance(cls, attrs, I=None):
     """An instance of a pydantic model class of the generator: the given attributes plus the declared defaults of every other field
-    (so that a definition that omits a key looks as it does after parsing, and a newly added optional key does not look like a crash)."""
+    (so that a definition that omits a key looks as it does after parsing, and a newly added optional key does not look like a crash),
+    passed through the model's post root validators when an interpreter is given (what pydantic does after parsing the fields)."""
     full = {}
     for c in reversed([c for c in cls.mro if isinstance(c, ClassV)]):
         anns = c.ns.get("__annotations__")
@@ -538,6 +560,15 @@ def model_instance(cls, attrs):
             if fname in c.ns and not isinstance(c.ns[fname], (FuncV, WrapV)) and not fname.startswith("_"):
                 full[fname] = c.ns[fname]
     full.update(attrs)
+    if I is not None:
+        for name in post_root_validators(cls):
+            try:
+                out = I.call(I.getattr_(cls, name, Run(), None), [DictV(dict(full))], {}, Run(), None)
+            except Limit as e:
+                raise AnalysisError(f"root validator {cls.name}.{name} not understood: {e}")
+            if not isinstance(out, DictV):
+                raise AnalysisError(f"root validator {cls.name}.{name} returns {out!r}, not a mapping")
+            full = dict(out.d)
     return InstV(cls, full)
 
 
@@ -729,15 +760,9 @@ def generated_modules(ctx):
     inside = lambda r, v: r is not None and r[0] <= v <= r[1]
 
     def model(cls, attrs):
-        """An instance of a pydantic model class: the given attributes plus the declared defaults of every other field."""
-        full = {}
-        for c in reversed([c for c in cls.mro if isinstance(c, ClassV)]):
-            anns = c.ns.get("__annotations__")
-            for fname in (anns.d if isinstance(anns, DictV) else {}):
-                if fname in c.ns and not isinstance(c.ns[fname], (FuncV, WrapV)) and not fname.startswith("_"):
-                    full[fname] = c.ns[fname]
-        full.update(attrs)
-        return InstV(cls, full)
+        """An instance of a pydantic model class: the given attributes plus the declared defaults of every other field, then the
+        post root validators (a validator that rewrites a parsed definition is part of the translation)."""
+        return model_instance(cls, attrs, I)
 
     structs = {}
 
